@@ -8,23 +8,30 @@ FRAGMENT = {
  'level_text': 'seeded exploration of registration histories (register / unregister / legacy add / legacy remove, masks 0, single bits, unions, -1, '
                '2-6 handler identities in four function/user-pointer layouts) x re-entrancy scripts (which handler does what to itself, the next, the '
                'previous, the first, the last or a named handler at its n-th invocation) x event sources (direct vbi_send_event and real sliced data '
-               'through vbi_decode: Teletext pages, caption words, XDS, VPS, 8/30 format 1 and 2, WSS, immediate and deferred ITV triggers) against an ordered-list reference model; the '
+               'through vbi_decode: Teletext pages, caption words, XDS, VPS, 8/30 format 1 and 2, WSS, immediate and deferred ITV triggers) against an ordered-list reference model; '
+               'in half of the runs a continuous Teletext transmission (page carousels in 1-3 of the 8 magazines, rows that identify page, transmission and row, '
+               'erase flag, time-filling headers) runs across every change of the set of TTX_PAGE requesters - packet by packet, so a boundary falls anywhere in a page - '
+               'beside handlers for every other event type, against a reference receiver with an acquisition gate (events and cached row text); the '
                'real dispatcher and service decoders under ASan+UBSan; sampling, not proof',
  'level_note': 'trusted: the reference model (written from the statement and the documentation of vbi_event_handler_register), the link-time seam '
                '-Wl,--wrap=vbi_send_event that brackets each raised event (events raised from inside vbi.c by a channel switch are not bracketed and are '
                'avoided: one station, steady timestamps, consistent headers), clang sanitizers.  Accepted either way because the statement is silent: a '
                'handler whose mask is changed while an event is being delivered and whose turn has not come may be called or not; a handler added during '
-               'delivery is called zero times or once; a handler removed and registered again during delivery counts as a newly added one; a probe page '
-               'on air while the set of TTX_PAGE requesters changes may be cached or not',
+               'delivery is called zero times or once; a handler removed and registered again during delivery counts as a newly added one; a Teletext page '
+               'on air (header .. next header of its magazine that passes) while the set of TTX_PAGE requesters changes - also by a handler running while its header '
+               'is decoded - may be dropped, or announced once and cached with exactly those of its own rows that were sent while a handler requested TTX_PAGE '
+               '(never a row from the gap, never a row of another page); a page whose header was sent in the gap is never acquired',
  'design_ref': 'DESIGN.md section 6 (C11)',
  'rule': 'one evaluation = one simulated run: one decoder, 2-6 handler identities, 0-8 script entries, 7-45 operations of one or two tasks interleaved '
          'frame by frame by the seeded scheduler (a third of the runs without scripts); every raised event is checked against the model when it is '
-         'raised, at every callback and when the delivery ends; every Teletext probe page is looked up right after its transmission; '
+         'raised, at every callback and when the delivery ends; every Teletext probe page is looked up right after its transmission; at every Teletext header the '
+         'VBI_EVENT_TTX_PAGE raised (or not) and the cached text of the page that ends there are compared with the gated reference receiver, and every page '
+         'number transmitted is audited at the end of the run; '
          'non-trivial = at least 2 deliveries reached two or more handlers, at least 5 handler calls, and (when the plan has scripts) at least one '
          'scripted action ran inside a callback; distinct = distinct event-log hash',
  'fault_kinds': ['fault_cb_remove_self', 'fault_cb_remove_next', 'fault_cb_remove_prev', 'fault_cb_remove_later', 'fault_cb_remove_absent',
                  'fault_cb_rereg_self', 'fault_cb_rereg_other', 'fault_cb_mask_change', 'fault_cb_add_new', 'fault_cb_legacy_add',
-                 'fault_cb_legacy_remove'],
+                 'fault_cb_legacy_remove', 'fault_ttx_flip_api', 'fault_ttx_flip_in_callback', 'fault_ttx_off_midpage', 'fault_ttx_on_midpage'],
  'components': {'real': ['src/vbi.c (vbi_event_handler_register/unregister/add/remove, vbi_event_enable, vbi_send_event, vbi_decode)',
                          'src/packet.c (Teletext acquisition gate, 8/30, VPS)', 'src/caption.c', 'src/wss.c', 'src/trigger.c', 'src/cache.c'],
                 'stub': ['re-entrancy script interpreter (handler callbacks)', 'Teletext / caption / XDS / VPS / 8/30 / WSS / ITV trigger transmitters',
